@@ -287,6 +287,16 @@ def run(ctx):
                     # a channel named twice (by name and/or position) is still converted once, with its own curve
                     c2 = order[int(rng.integers(len(order)))]
                     req.append(names[c2] if rng.random() < 0.5 else c2)
+                colpos = list(range(C))
+                if rng.random() < 0.5:
+                    # the sample to convert holds the same channels in ANOTHER column order than the beads file (cell files
+                    # need not share the beads file's layout): channels are identified by name
+                    colpos = [int(x) for x in rng.permutation(C)]
+                    if colpos == list(range(C)):
+                        colpos = colpos[::-1]
+                    t = t[:, [names[c] for c in colpos]]
+                    req = [names[c] if not isinstance(c, str) else c for c in req]
+                where = {c: colpos.index(c) for c in range(C)}
                 o5 = core.attempt(out.transform_fxn, t, req)
                 ctx.counters['chk:accuracy'] += 1
                 if ctx.check(not o5.raised, 'multi-channel-conversion-raised' + dtag, cid, request=req,
@@ -294,10 +304,10 @@ def run(ctx):
                     worst = 0.0
                     for c in order:
                         m_, b_, _a = bd['laws'][c]
-                        y = np.asarray(o5.value)[:, c]
+                        y = np.asarray(o5.value)[:, where[c]]
                         worst = max(worst, float(np.max(np.abs(y / (np.exp(b_) * spans[c] ** m_) - 1))))
                     ctx.check(worst <= 0.10, 'conversion-off-by-more-than-10pct:multi-channel-request' + dtag, cid,
-                              request=req, worst=worst, **desc)
+                              request=req, worst=worst, column_order=colpos, **desc)
         # 6. metamorphic: same seed twice identical; permuted events: same results modulo the permutation
         if (cid[1] % 3 == 0 or ctx.tier == 'thorough') and part_ok:
             with np.errstate(all='ignore'):
